@@ -20,13 +20,14 @@ exit of publish passes rollback_publication and DestinationGuard::drop always re
 error is raised exactly when the opt-in is off; copy_records forwards the record's timestamp and absolute expiry
 unchanged as explicit values. Not decided: record-for-record equality for all legacy images.
 """
-DECIDED = ['the read-only scan masks journaled extents with a cursor over a journal sorted by start sector', 'no failing exit after the destination name is published', "read-only source cannot be written", "destination never overwritten; publish by hard_link after verify", "rollback on failure",
+DECIDED = ['the feox-migrate CLI touches no file itself (quick tier analyses the bin crate too)', 'the read-only scan masks journaled extents with a cursor over a journal sorted by start sector', 'no failing exit after the destination name is published', "read-only source cannot be written", "destination never overwritten; publish by hard_link after verify", "rollback on failure",
            "ambiguous legacy markers need the opt-in", "timestamp / expiry forwarded unchanged",
            'the destination name is unlinked only by the guard that linked it (rollback only after its own hard_link succeeded)',
            'record batches resume strictly after the last key of the previous batch']
 NOT_DECIDED = ["record-for-record equality with a recovery of the source for all legacy images"]
 ASSUMPTIONS = ["fs::hard_link fails if the destination name exists (POSIX link(2))"]
 BIN = True
+QUICK_CONFIGS = ["lib", "bin"]   # the CLI is part of the product: a change to src/bin must be seen on every run
 
 RO_BODIES = ["FeoxStore::with_config_and_open_mode", "FeoxStore::load_indexes", "FeoxStore::scan_and_rebuild_indexes",
              "FeoxStore::remove_expired_recovery_winners", "FeoxStore::open_device_read_only", "FeoxStore::attach_device_file"]
@@ -606,13 +607,21 @@ def check(ctx):
 
 
 def check_bin(ctx):
-    """the feox-migrate binary only goes through feoxdb::migrate"""
+    """the feox-migrate binary only goes through feoxdb::migrate: it touches no file, directory or process itself (every
+    guarantee of the property - read-only source, no overwrite, publish after verify, rollback - lives in the library; a
+    "clean up after a failed run" in the CLI deletes a destination the failed run never owned)"""
+    import re
     inst = "C15.bin"
     n = 0
+    FS = re.compile(r"^(std::fs::|std::os::unix::fs::|std::os::fd::|std::process::Command|libc::|nix::|std::io::Write::write|std::io::copy)")
+    OK = re.compile(r"^std::fs::(Metadata|FileType|Permissions)::|^std::io::Write::write_fmt|^std::io::Write::write_all")   # stdout / stderr printing
     for b in ctx.prog.product_bodies():
         for c in b.calls():
             n += 1
-            for bad in ("fs::rename", "fs::copy", "fs::write", "File::create", "fs::remove_file", "OpenOptions::open", "fs::hard_link"):
+            nm = R.callee_name(c.ev)
+            if FS.search(nm) and not OK.search(nm):
+                ctx.fail(inst, "FORBID", b.path, "the CLI touches the file system / spawns a process itself: " + nm.split("<")[0][-60:], b.where(c.id))
+            for bad in ("fs::rename", "fs::copy", "fs::write", "File::create", "fs::remove_file", "OpenOptions::open", "fs::hard_link", "fs::remove_dir_all", "File::set_len"):
                 if call_matches(c.ev, bad):
                     ctx.fail(inst, "FORBID", b.path, "the CLI touches files itself: " + bad, b.where(c.id))
     ms = ctx.prog.call_sites("migrate")
